@@ -62,8 +62,8 @@ def main(claimed):
         "version": 1,
         "setup_cmd": "make -s -f sim/Makefile -j16 && make -s -f sim/Makefile -j16 V=small",
         "hooks": {"guard": "NAKEN_ASM_VERIF",
-                  "enable": "sim/Makefile passes -DNAKEN_ASM_VERIF to every /repo source; the 'small' build variant (make -f sim/Makefile V=small) additionally passes -DNAKEN_ASM_VERIF_PAGE_SIZE=256 -DNAKEN_ASM_VERIF_SYMBOLS_HEAP_SIZE=1024 -DNAKEN_ASM_VERIF_MACROS_HEAP_SIZE=4096 (hook H1: build-time knobs in core/MemoryPage.h, core/Symbols.h, core/Macros.h). Hook H2 (core/MemoryPage.h, core/Memory.{h,cpp}, core/AsmContext.h, fileio/file.cpp): every byte of the assembler's image remembers which pass wrote it last, and file_write() counts the bytes of the image that pass 2 never wrote (read by the executor through two globals; no behaviour change). All other seams are intercepted at link time (-Wl,--wrap, -Dmain=..., shadow readline headers).",
-                  "baseline_off_cmd": "cd /repo && ./configure && make && make tests", "source_commits": ["14c4d8b", "dd792ba"], "add_only": True},
+                  "enable": "sim/Makefile passes -DNAKEN_ASM_VERIF to every /repo source; the 'small' build variant (make -f sim/Makefile V=small) additionally passes -DNAKEN_ASM_VERIF_PAGE_SIZE=256 -DNAKEN_ASM_VERIF_SYMBOLS_HEAP_SIZE=1024 -DNAKEN_ASM_VERIF_MACROS_HEAP_SIZE=4096 (hook H1: build-time knobs in core/MemoryPage.h, core/Symbols.h, core/Macros.h). Hook H2 (core/MemoryPage.h, core/Memory.{h,cpp}, core/AsmContext.h, fileio/file.cpp): every byte of the assembler's image remembers which pass wrote it last, file_write() counts the bytes of the image that pass 2 never wrote, and a further counter says how many bytes pass 2 wrote more than once (read by the executor through three globals; no behaviour change). All other seams are intercepted at link time (-Wl,--wrap, -Dmain=..., shadow readline headers).",
+                  "baseline_off_cmd": "cd /repo && ./configure && make && make tests", "source_commits": ["14c4d8b", "dd792ba", "333843b"], "add_only": True},
         "engines": [{"name": "dst-" + p.lower(), "path": "engines/%s.py" % p.lower(), "serves_properties": [p],
                      "kind_free_text": "deterministic simulation: Python planner/oracle + C++ executor (sim/executor.cpp) linked with /repo's objects"} for p in claimed],
         "checks": checks,
